@@ -522,7 +522,12 @@ class InterpBase(CtxMixin):
         args = []
         for a in node.args:
             if isinstance(a, ast.Starred):
-                args.extend(self.iterate(self.eval(a.value, env)))
+                sv = self.eval(a.value, env)
+                if isinstance(f, Builtin) and f.name == 'zip' and len(node.args) == 1:
+                    from .core import RowView
+                    if isinstance(sv, SList) and not isinstance(sv.n, int):
+                        return self.zip_star(sv)
+                args.extend(self.iterate(sv))
             else:
                 args.append(self.eval(a, env))
         kwargs = {}
